@@ -161,3 +161,17 @@ func writeJSONFile(path string, v interface{}) error {
 	}
 	return os.WriteFile(path, b, 0o644)
 }
+
+func readLines(path string) []string {
+	b, err := os.ReadFile(path)
+	if err != nil {
+		return nil
+	}
+	var out []string
+	for _, l := range strings.Split(string(b), "\n") {
+		if strings.TrimSpace(l) != "" {
+			out = append(out, l)
+		}
+	}
+	return out
+}
